@@ -45,7 +45,7 @@ ADV = [0, 1, 500, 999, 1000, 1001, 5000, 9999, 10000, 10001, 60000, 843750, 1124
 
 def floors(tier):
     q = tier == "quick"
-    return {"c04.alternate": 30000 if q else 3000000, "c04.live_equals_cache": 60000 if q else 6000000, "c04.visible_in_add": 5000 if q else 400000, "c04.threaded": 3 if q else 12}
+    return {"c04.alternate": 30000 if q else 3000000, "c04.live_equals_cache": 60000 if q else 6000000, "c04.visible_in_add": 5000 if q else 400000, "c04.threaded": 8 if q else 24}
 
 
 def plan(tier, seed):
@@ -54,8 +54,8 @@ def plan(tier, seed):
     else:
         n, per = 64, 12000
     specs = [{"seed": seed, "shard": i, "per": per, "tier": tier} for i in range(n)]
-    for k in range(2 if tier == "quick" else 8):
-        specs.append({"seed": seed, "shard": 2000 + k, "per": 0, "tier": tier, "threaded": 3})
+    for k in range(4 if tier == "quick" else 12):
+        specs.append({"seed": seed, "shard": 2000 + k, "per": 0, "tier": tier, "threaded": 4})
     return specs
 
 
@@ -324,8 +324,25 @@ def run_threaded(res: Result, seed: int) -> None:
     set_flavour(False)
     T = TYPES[0]
 
+    # a listener that takes its time: the loop thread then processes several datagrams about one instance (announce,
+    # goodbye, announce again) while the browser thread still works on an earlier callback
+    slow = rng.random() < 0.6
+    lrng = random.Random(seed ^ 0x51)
+    inflight = [0]            # callbacks the browser thread has entered and not yet left (a slow one is not "queue empty")
+
     class L(ServiceListener):
         def _cb(self, kind: str, zc: Any, name: str) -> None:
+            with lock:
+                inflight[0] += 1
+            try:
+                if slow and lrng.random() < 0.45:
+                    time.sleep(lrng.choice([0.03, 0.06, 0.1]))
+                self._record(kind, zc, name)
+            finally:
+                with lock:
+                    inflight[0] -= 1
+
+        def _record(self, kind: str, zc: Any, name: str) -> None:
             with lock:
                 prev = state.get(name.lower())
                 if kind == "A" and prev == "A":
@@ -361,10 +378,11 @@ def run_threaded(res: Result, seed: int) -> None:
             time.sleep(0.15)
             steps = []
             for i in range(rng.choice([6, 12, 20])):
-                inst = rng.choice(INST[T])
+                # (behind a slow listener: few instances flapping, so that several state changes of one instance queue up)
+                inst = rng.choice(INST[T][:2] if slow else INST[T])
                 if rng.random() < 0.25:
                     inst = inst.upper()
-                ttl = rng.choice([0, 0, 1, 4500])
+                ttl = rng.choice([0, 4500] if slow else [0, 0, 1, 4500])
                 steps.append((inst, ttl))
                 with lock:
                     injected.append((inst, ttl))
@@ -376,10 +394,12 @@ def run_threaded(res: Result, seed: int) -> None:
             deadline = time.monotonic() + 20.0
             while time.monotonic() < deadline:
                 __import__("asyncio").run_coroutine_threadsafe(_cached(zc, T), zc.loop).result(10)
-                if browser.queue.empty():
+                with lock:
+                    idle = inflight[0] == 0
+                if browser.queue.empty() and idle:
                     time.sleep(0.05)
                     with lock:
-                        if browser.queue.empty():
+                        if browser.queue.empty() and inflight[0] == 0:
                             quiet = True
                             break
                 time.sleep(0.02)
@@ -404,7 +424,7 @@ def run_threaded(res: Result, seed: int) -> None:
                 res.violation("c04.alternate", "threaded_loop_exception", repr(rig.net.escapes[0])[:500], {}, {"seed": seed, "threaded": True})
             browser.cancel()
             zc.close()
-            res.cls("threaded", "steps=%d" % len(steps))
+            res.cls("threaded", "steps=%d" % len(steps), "slow-listener" if slow else "fast-listener")
     except Exception as e:
         res.inconclusive.append("threaded browser run crashed in harness: %r" % (e,))
 
